@@ -162,6 +162,7 @@ spec fn is_suffix<A>(small: Seq<A>, big: Seq<A>) -> bool {
 /// open recording frames: small anchor ids, still open, and every inner frame's buffer is a
 /// suffix of the enclosing frame's buffer (whatever was recorded since the inner anchor started was
 /// also recorded for every enclosing anchor) -- the C02 recording invariant
+#[verifier::opaque]
 spec fn frames_ok(fs: Seq<RecFrame<'_>>) -> bool {
     &&& forall|a: int| 0 <= a < fs.len() ==> (#[trigger] fs[a]).id <= usize::MAX - 8
     &&& forall|j: int| 0 <= j < fs.len() ==> (#[trigger] fs[j]).depth >= 1 && fs[j].buf@.len() >= 1
@@ -174,6 +175,7 @@ spec fn limits_lt_max(b: Budget) -> bool {
         && b.max_merge_keys < usize::MAX && b.max_documents < usize::MAX && b.max_depth < usize::MAX
 }
 
+#[verifier::opaque]
 spec fn budget_ok(b: BudgetEnforcer) -> bool {
     b.inv() && within(b.abs(), b.budget, b.per_doc()) && limits_lt_max(b.budget)
         && (b.per_doc() || b.report.documents < usize::MAX)
@@ -206,8 +208,32 @@ impl<'a> LiveEvents<'a> {
 
 proof fn lemma_budget_room(b: BudgetEnforcer)
     requires budget_ok(b),
-    ensures b.room(),
+    ensures b.room(), b.inv(), within(b.abs(), b.budget, b.per_doc()), limits_lt_max(b.budget),
 {
+    reveal(budget_ok);
+}
+
+proof fn lemma_budget_ok_intro(b: BudgetEnforcer)
+    requires b.inv(), within(b.abs(), b.budget, b.per_doc()), limits_lt_max(b.budget),
+    ensures budget_ok(b),
+{
+    reveal(budget_ok);
+}
+
+proof fn lemma_frames_facts(fs: Seq<RecFrame<'_>>)
+    requires frames_ok(fs),
+    ensures
+        forall|a: int| 0 <= a < fs.len() ==> (#[trigger] fs[a]).id <= usize::MAX - 8 && fs[a].depth >= 1,
+        frames_nested(fs),
+{
+    reveal(frames_ok);
+}
+
+proof fn lemma_frames_empty(fs: Seq<RecFrame<'_>>)
+    requires fs.len() == 0,
+    ensures frames_ok(fs),
+{
+    reveal(frames_ok);
 }
 
 spec fn ids_distinct(fs: Seq<RecFrame<'_>>) -> bool {
@@ -246,6 +272,7 @@ proof fn lemma_frames_all_pushed(fs: Seq<RecFrame<'_>>, gs: Seq<RecFrame<'_>>, e
         forall|j: int| 0 <= j < fs.len() ==> (#[trigger] gs[j]).id == fs[j].id && gs[j].buf@ == fs[j].buf@.push(e) && gs[j].depth >= 1,
     ensures frames_ok(gs),
 {
+    reveal(frames_ok);
     assert forall|j: int| 0 <= j < gs.len() - 1 implies is_suffix((#[trigger] gs[j + 1]).buf@, gs[j].buf@) by {
         assert(is_suffix(fs[j + 1].buf@, fs[j].buf@));
         lemma_suffix_push(fs[j + 1].buf@, fs[j].buf@, e);
@@ -260,6 +287,7 @@ proof fn lemma_frames_with_new(fs: Seq<RecFrame<'_>>, gs: Seq<RecFrame<'_>>, e: 
         gs[gs.len() - 1].id <= usize::MAX - 8, gs[gs.len() - 1].depth == 1, gs[gs.len() - 1].buf@ == seq![e],
     ensures frames_ok(gs),
 {
+    reveal(frames_ok);
     let n = fs.len() as int;
     assert forall|j: int| 0 <= j < gs.len() - 1 implies is_suffix((#[trigger] gs[j + 1]).buf@, gs[j].buf@) by {
         if j + 1 < n {
@@ -281,6 +309,7 @@ proof fn lemma_frames_remaining(fs: Seq<RecFrame<'_>>, gs: Seq<RecFrame<'_>>)
         forall|j: int| 0 <= j < gs.len() ==> (#[trigger] gs[j]).id == fs[j].id && gs[j].buf == fs[j].buf && gs[j].depth >= 1,
     ensures frames_ok(gs),
 {
+    reveal(frames_ok);
     assert forall|j: int| 0 <= j < gs.len() - 1 implies is_suffix((#[trigger] gs[j + 1]).buf@, gs[j].buf@) by {
         assert(is_suffix(fs[j + 1].buf@, fs[j].buf@));
     }
